@@ -1,10 +1,10 @@
 SPECIFICATION Spec
 CONSTANTS
   Names = {"a", "b"}
-  BaseLens = {0, 1}
-  Align = {20}
-  EndAlign = {}
-  MaxOps = 6
+  BaseLens = {1}
+  Align = {}
+  EndAlign = {20, 48}
+  MaxOps = 5
   MaxFiles = 2
   Srcs = {"exact"}
   Calls = {"start", "append", "end", "add", "finalize"}
